@@ -10,6 +10,8 @@ mod c01;
 #[cfg(kani)]
 mod c03;
 #[cfg(kani)]
+mod c04core;
+#[cfg(kani)]
 mod c07;
 #[cfg(kani)]
 mod c10;
